@@ -35,7 +35,9 @@ Proof.
   - inv_o H; auto.
   - destruct (acquire p m t) eqn:Ha; inv_o H. apply acquire_some in Ha as (k & -> & _). apply Hq, Hb.
   - destruct (acquire p m t) eqn:Ha; inv_o H; auto. apply acquire_some in Ha as (k & -> & _). apply Hq, Hb.
-  - destruct (owned_by (mtx p m) t); inv_o H; auto. rewrite st_release in Hb. rewrite cnd_release. auto.
+  - destruct (owned_by (mtx p m) t); [|destruct (m_rec (mtx p m))]; inv_o H; auto.
+    + rewrite st_release in Hb. rewrite cnd_release. auto.
+    + unfold release_all in *. wsimpl. auto.
   - destruct (st p t) eqn:Hst; try discriminate.
     + destruct (negb _).
       * inv_o H. wsimpl. destruct (Nat.eq_dec u t) as [->|]; upd_simpl; [discriminate|auto].
@@ -59,7 +61,7 @@ Qed.
 
 Lemma I3_step w mv : I3 w -> I3 (step w mv).
 Proof.
-  intros H. unfold I3. destruct mv as [t|t|t|n|c]; cbn [step].
+  intros H. unfold I3. destruct mv as [t|t|t|t|n|c]; cbn [step].
   - rewrite ps_clear_mark.
     destruct (step_run_case w t) as [|Hr Hpc Hs|op rest Hr Hpc Hs|p' Hr Hpc Hp|p' r Hr Hpc Hp].
     + exact H.
@@ -78,6 +80,8 @@ Proof.
       intros c0 u Hb. wsimpl.
       destruct (Nat.eq_dec u t) as [->|Hn]; upd_simpl; [discriminate|].
       destruct (Nat.eq_dec c0 c) as [->|]; upd_simpl; [apply in_remove_tid; auto|]; apply H, Hb.
+  - wsimpl. destruct (steal_shape (ps w) t) as [->|(m & rc & d & Hs & _ & ->)]; [exact H|].
+    intros c0 u Hb. wsimpl. destruct (Nat.eq_dec u t) as [->|Hn]; upd_simpl; [discriminate|apply H, Hb].
   - exact H.
   - wsimpl. unfold prim_rotate. destruct (cnd (ps w) c) as [|h q] eqn:Hq; [exact H|].
     intros c0 u Hb. wsimpl. pose proof (H c0 u Hb) as Hi.
@@ -87,7 +91,7 @@ Qed.
 (* ---- liveness of Monitor::set ---- *)
 Definition mon_release (w : world) : Prop :=
   exists v, pc (tc w v) = MonSetUnlock \/ pc (tc w v) = MonSetSignal \/
-            (exists dl dl', st (ps w) v = TWoken MM 0 dl /\ pc (tc w v) = MonWaitCond dl').
+            (exists rc dl dl', st (ps w) v = TWoken MM rc dl /\ pc (tc w v) = MonWaitCond dl').
 Definition MonLive (w : world) : Prop :=
   monf w = true -> forall u, blocked_on MC (st (ps w) u) = true -> mark w u = true -> mon_release w.
 
@@ -102,13 +106,13 @@ Lemma mon_release_frame w w' t :
   (forall v, v <> t -> tc w' v = tc w v) ->
   (forall v, v <> t -> st_evolves (st (ps w) v) (st (ps w') v)) ->
   (pc (tc w t) <> MonSetUnlock /\ pc (tc w t) <> MonSetSignal /\
-   (forall dl dl', ~ (st (ps w) t = TWoken MM 0 dl /\ pc (tc w t) = MonWaitCond dl'))) ->
+   (forall rc dl dl', ~ (st (ps w) t = TWoken MM rc dl /\ pc (tc w t) = MonWaitCond dl'))) ->
   mon_release w -> mon_release w'.
 Proof.
   intros Htc Hst (Ha & Hb & Hc) (v & Hv). destruct (Nat.eq_dec v t) as [->|Hn].
-  - exfalso. destruct Hv as [Hv|[Hv|(dl & dl' & Hv)]]; [tauto|tauto|]. eapply Hc; eauto.
-  - exists v. rewrite Htc by auto. destruct Hv as [Hv|[Hv|(dl & dl' & Hs & Hp)]]; auto.
-    right; right. exists dl, dl'. split; auto. eapply woken_evolves; eauto.
+  - exfalso. destruct Hv as [Hv|[Hv|(rc & dl & dl' & Hv)]]; [tauto|tauto|]. eapply Hc; eauto.
+  - exists v. rewrite Htc by auto. destruct Hv as [Hv|[Hv|(rc & dl & dl' & Hs & Hp)]]; auto.
+    right; right. exists rc, dl, dl'. split; auto. eapply woken_evolves; eauto.
 Qed.
 
 Lemma mark_after_return w t p r : p <> MonSetLock -> mark (after_return w t p r) = mark w.
@@ -136,25 +140,25 @@ Proof. destruct p; cbn; intros H; inversion H; subst; auto. Qed.
 Lemma MonLive_step w mv : I2 w -> I3 w -> MonLive w -> MonLive (step w mv).
 Proof.
   intros H2 H3 HM. unfold MonLive.
-  destruct mv as [t|t|t|n|c]; cbn [step].
+  destruct mv as [t|t|t|t|n|c]; cbn [step].
   - rewrite monf_clear_mark, ps_clear_mark. intros Hf u Hu Hmk. apply mon_release_clear.
     apply mark_clear_mark in Hmk as [Hmk Hclr].
     destruct (step_run_case w t) as [|Hr Hpc Hs|op rest Hr Hpc Hs|p' Hr Hpc Hp|p' r Hr Hpc Hp].
     + eapply HM; eauto.
     + wsimpl. destruct (Nat.eq_dec u t) as [->|Hn]; upd_simpl; [discriminate|].
-      eapply mon_release_frame with (t := t) (w := w); [reflexivity| |rewrite Hpc; repeat split; try discriminate; intros ? ? [_ ?]; discriminate|eapply HM; eauto].
+      eapply mon_release_frame with (t := t) (w := w); [reflexivity| |rewrite Hpc; repeat split; try discriminate; intros ? ? ? [_ ?]; discriminate|eapply HM; eauto].
       intros v Hv. wsimpl. upd_simpl. left; reflexivity.
     + rewrite ps_begin_op in *. rewrite monf_begin_op in Hf. rewrite mark_begin_op in Hmk.
       eapply mon_release_frame with (t := t) (w := w);
         [intros; now apply tc_begin_op_other|intros; rewrite ps_begin_op; left; reflexivity
-        |rewrite Hpc; repeat split; try discriminate; intros ? ? [_ ?]; discriminate|eapply HM; eauto].
+        |rewrite Hpc; repeat split; try discriminate; intros ? ? ? [_ ?]; discriminate|eapply HM; eauto].
     + wsimpl. assert (Hst' : st (ps w) t = TRun) by (apply prim_step_progress in Hp as (? & ? & ? & _ & ? & _); auto).
       destruct (Nat.eq_dec u t) as [->|Hn].
       * specialize (Hclr eq_refl Hu). rewrite Hst' in Hclr. discriminate.
       * eapply mon_release_frame with (t := t) (w := w); [reflexivity| | |eapply HM; eauto].
         -- intros v Hv. wsimpl. eapply prim_step_st_other; eauto; [rewrite Hp; reflexivity|now apply runnable_not_ns].
         -- apply prim_step_progress in Hp as (c' & m & dl & Hc & _). apply cond_pc_shape in Hc as [(-> & _)|(-> & _)];
-             repeat split; try discriminate; intros ? ? [E _]; rewrite Hst' in E; discriminate.
+             repeat split; try discriminate; intros ? ? ? [E _]; rewrite Hst' in E; discriminate.
         -- eapply blocked_evolves; [|exact Hu]. eapply prim_step_st_other; eauto; [rewrite Hp; reflexivity|now apply runnable_not_ns].
     + rewrite ps_after_return in *. wsimpl.
       assert (Hself : st p' t = TRun) by (eapply prim_step_st_self_return; eauto; now apply I2_self_ok).
@@ -171,18 +175,13 @@ Proof.
       all: try (exists t; cbn [after_return]; wsimpl; upd_simpl; wsimpl; auto; fail).
       all: try (eapply mon_release_frame with (t := t) (w := w);
                 [exact Hframe|exact Hev'
-                |rewrite Hpc'; repeat split; try discriminate; intros ? ? [_ ?]; discriminate
+                |rewrite Hpc'; repeat split; try discriminate; intros ? ? ? [_ ?]; discriminate
                 |rewrite mark_after_return in Hmk by discriminate;
                  rewrite monf_after_return_other in Hf by (try discriminate; intros; discriminate); wsimpl; eapply HM; eauto]; fail).
-      * (* MonWaitCond returns *)
-        revert Hf Hmk. cbn [after_return]. wsimpl.
-        destruct (timed dl && negb (r =? 0)) eqn:Htm.
-        -- wsimpl. intros Hf Hmk.
-           eapply mon_release_frame with (t := t) (w := w);
-             [intros v Hv; wsimpl; upd_simpl; reflexivity|intros v Hv; wsimpl; auto| |eapply HM; eauto].
-           rewrite Hpc'. repeat split; try discriminate. intros dl0 dl1 [E _].
-           prim_inv Hp; [congruence|]. rewrite E in H. inversion H; subst. cbn in Htm. rewrite andb_false_r in Htm. discriminate.
-        -- destruct (monf w) eqn:Hmf; wsimpl; intros Hf; congruence.
+      * (* MonWaitCond returns: the flag is down afterwards whatever the return code *)
+        revert Hf. cbn [after_return]. wsimpl.
+        destruct (monf w) eqn:Hmf; wsimpl; [intros Hf; discriminate|].
+        destruct (timed dl && negb (r =? 0)); wsimpl; intros Hf; congruence.
       * (* MonSetSignal : the signal wakes a blocked waiter *)
         prim_inv Hp. match goal with H : _ \/ _ |- _ => destruct H as [[-> Hnone]|(x & Hbx & Hin & ->)] end.
         -- rewrite (Hnone u) in Hb; [discriminate|]. apply H3. exact Hb.
@@ -197,26 +196,34 @@ Proof.
       rewrite mark_after_return in Hmk by tauto. rewrite monf_after_return_other in Hf by tauto.
       eapply mon_release_frame with (t := t) (w := w);
         [intros; now apply tc_after_return_other|intros; rewrite ps_after_return; left; reflexivity| |eapply HM; eauto].
-      destruct (pc (tc w t)); try discriminate; repeat split; try discriminate; intros ? ? [_ ?]; discriminate.
+      destruct (pc (tc w t)); try discriminate; repeat split; try discriminate; intros ? ? ? [_ ?]; discriminate.
     + wsimpl. intros Hf u Hu Hmk. pose proof (H2 t) as H2t. rewrite Hst in H2t. cbn in H2t.
       assert (Hun : u <> t /\ blocked_on MC (st (ps w) u) = true).
       { revert Hu. unfold prim_spurious. rewrite Hst. wsimpl. destruct (Nat.eq_dec u t) as [->|]; upd_simpl; cbn; intros; try discriminate; auto. }
       eapply mon_release_frame with (t := t) (w := w); [reflexivity| | |eapply HM; try exact Hmk; tauto].
       * intros v Hv. wsimpl. unfold prim_spurious. rewrite Hst. wsimpl. upd_simpl. left; reflexivity.
-      * apply cond_pc_shape in H2t as [(-> & _)|(-> & _)]; repeat split; try discriminate; intros ? ? [E _]; rewrite Hst in E; discriminate.
+      * apply cond_pc_shape in H2t as [(-> & _)|(-> & _)]; repeat split; try discriminate; intros ? ? ? [E _]; rewrite Hst in E; discriminate.
   - destruct (st (ps w) t) eqn:Hst; try exact HM.
     + destruct (pc (tc w t)) eqn:Hpc'; try exact HM. destruct (_ && _); [|exact HM]. rewrite ps_after_return. intros Hf u Hu Hmk.
       rewrite mark_after_return in Hmk by discriminate. rewrite monf_after_return_other in Hf by (try discriminate; intros; discriminate).
       eapply mon_release_frame with (t := t) (w := w);
         [intros; now apply tc_after_return_other|intros; rewrite ps_after_return; left; reflexivity| |eapply HM; eauto].
-      rewrite Hpc'. repeat split; try discriminate; intros ? ? [_ ?]; discriminate.
+      rewrite Hpc'. repeat split; try discriminate; intros ? ? ? [_ ?]; discriminate.
     + wsimpl. intros Hf u Hu Hmk. pose proof (H2 t) as H2t. rewrite Hst in H2t. cbn in H2t.
       assert (Hun : (forall v, v <> t -> st (prim_timeout (ps w) t) v = st (ps w) v) /\ blocked_on MC (st (ps w) u) = true).
       { revert Hu. unfold prim_timeout. rewrite Hst. destruct dl as [d|]; [|auto]. destruct (dl_expired d _); [|auto].
         wsimpl. split; [intros; now rewrite upd_other|]. revert Hu. destruct (Nat.eq_dec u t) as [->|]; upd_simpl; cbn; intros; try discriminate; auto. }
       eapply mon_release_frame with (t := t) (w := w); [reflexivity| | |eapply HM; try exact Hmk; tauto].
       * intros v Hv. wsimpl. destruct Hun as [Hun _]. rewrite Hun by auto. left; reflexivity.
-      * apply cond_pc_shape in H2t as [(-> & _)|(-> & _)]; repeat split; try discriminate; intros ? ? [E _]; rewrite Hst in E; discriminate.
+      * apply cond_pc_shape in H2t as [(-> & _)|(-> & _)]; repeat split; try discriminate; intros ? ? ? [E _]; rewrite Hst in E; discriminate.
+  - wsimpl. intros Hf u Hu Hmk.
+    destruct (steal_shape (ps w) t) as [E|(m & rc & d & Hs & _ & E)]; rewrite E in *; [eapply HM; eauto|].
+    assert (Hb : blocked_on MC (st (ps w) u) = true).
+    { revert Hu. wsimpl. destruct (Nat.eq_dec u t) as [->|]; upd_simpl; [discriminate|auto]. }
+    destruct (HM Hf u Hb Hmk) as (v & Hv). exists v. wsimpl.
+    destruct Hv as [Hv|[Hv|(rc0 & dl & dl' & Hsv & Hp)]]; auto. right; right.
+    destruct (Nat.eq_dec v t) as [->|]; upd_simpl; [|eauto].
+    rewrite Hs in Hsv. inversion Hsv; subst. eauto.
   - exact HM.
   - wsimpl. intros Hf u Hu Hmk. destruct (HM Hf u) as (v & Hv); auto.
     + revert Hu. unfold prim_rotate. destruct (cnd (ps w) c); auto.
